@@ -111,8 +111,10 @@ theorem connectBestChain_ne (hnx : NX P) (s : State) (b : Blk) : (connectBestCha
       · split
         · simp
         · split
-          · split <;> simp
-          · exact reorgTo_ne hnx s b _
+          · simp
+          · split
+            · simp
+            · exact reorgTo_ne hnx s b _
 
 theorem maybeAcceptBlock_ne (hnx : NX P) (s : State) (b : Blk) (src : Src) :
     (maybeAcceptBlock P s b src).2 ≠ .err .exist := by
